@@ -235,7 +235,11 @@ def run_shard(args):
                     if b in muted:
                         continue
                     if v.clause.endswith(".hang"):
-                        st["after"] = shrink_budget + 1  # never shrink through cases that hang
+                        # every further hanging case costs a full time-out: record it and end this shard
+                        st["after"] = shrink_budget + 1
+                        out["hang_seen"] = True
+                        if b not in st["pending"] and b != st["target"]:
+                            st["pending"][b] = (v, case)
                     if st["target"] is None:
                         st["target"] = b
                         st["t_fail"] = time.time()
@@ -244,10 +248,12 @@ def run_shard(args):
                     elif b not in st["pending"]:
                         st["pending"][b] = (v, case)
                 if hit is not None:
-                    if hit.clause.endswith(".hang"):
-                        st["after"] = shrink_budget + 1  # every shrink attempt would cost a full time-out
                     st["best"], st["best_hash"], st["best_v"] = case, case_hash(case), hit
+                    if out.get("hang_seen"):
+                        raise _Stop()
                     raise AssertionError(hit.bucket)
+                if out.get("hang_seen"):
+                    raise _Stop()
 
             phases = [Phase.generate, Phase.shrink]
             test = hypothesis.seed(seed * 1000 + shard)(
@@ -284,6 +290,10 @@ def run_shard(args):
                 {"bucket": st["target"], "clause": v.clause, "detail": v.detail, "case": st["best"]}
             )
             muted.add(st["target"])
+            if out.get("hang_seen"):
+                for b, (pv, pcase) in st["pending"].items():
+                    out.setdefault("pending", {})[b] = {"bucket": b, "clause": pv.clause, "detail": pv.detail, "case": pcase}
+                break
             for b, (pv, pcase) in st["pending"].items():
                 out.setdefault("pending", {})[b] = {
                     "bucket": b,
